@@ -1,4 +1,141 @@
-import Amoco.Model.Eval
+/-
+  C12 — Every expression has the width its construction dictates.
+  Property theorems only (helper lemmas and the induction over the whole rewrite system live in
+  Amoco/Proofs/Expr{Comp,Width,EvalWidth}.lean).  All statements are about the executable model
+  Amoco.Model.{Expr,Simplify,Eval} of `cas/expressions.py`, for every fuel, complexity oracle and option.
+-/
+import Amoco.Proofs.ExprEvalWidth
+
 namespace Amoco.C12
-theorem placeholder : True := trivial
+
+open Amoco Amoco.Expr
+
+variable (cfg : Cfg)
+
+/-- Construction with the operator API (`l <o> r` in Python): the result is well-formed and has the
+    operand width for arithmetic, logic and shifts, 1 for comparisons, double for the widening multiply. -/
+theorem width_construct (fuel : Nat) (o : Op) (l r e : Expr) (hl : WF l) (hr : WF r)
+    (hc : o.type = 4 → l.size = r.size) (h : api cfg fuel o l r = .ok e) :
+    WF e ∧ e.size = (if o.type = 4 then 1 else if o = Op.mul2 then 2 * l.size else l.size) :=
+  (widthIH_all cfg fuel).api o l r hl hr hc e h
+
+/-- `oper(o, l, r)` (used by `ltu geu ror rol` and internally by every operator) -/
+theorem width_oper (fuel : Nat) (o : Op) (l r e : Expr) (hl : WF l) (hr : WF r)
+    (hc : o.type = 4 → l.size = r.size) (h : oper cfg fuel o l r = .ok e) :
+    WF e ∧ e.size = (if o.type = 4 then 1 else if o = Op.mul2 then 2 * l.size else l.size) :=
+  (widthIH_all cfg fuel).oper o l r hl hr hc e h
+
+/-- unary operators keep the width -/
+theorem width_neg (fuel : Nat) (x e : Expr) (hx : WF x) (h : apiNeg cfg fuel x = .ok e) : WF e ∧ e.size = x.size :=
+  (widthIH_all cfg fuel).apiNeg x hx e h
+
+theorem width_not (fuel : Nat) (x e : Expr) (hx : WF x) (h : apiNot cfg fuel x = .ok e) : WF e ∧ e.size = x.size :=
+  (widthIH_all cfg fuel).apiNot x hx e h
+
+/-- `simplify` with every option (`bitslice`, `widening`) returns a well-formed expression of the same width -/
+theorem width_simplify (fuel : Nat) (opts : Opts) (e r : Expr) (he : WF e) (h : simplify cfg fuel opts e = .ok r) :
+    WF r ∧ r.size = e.size :=
+  (widthIH_all cfg fuel).simplify opts e he r h
+
+/-- `eval` / substitution under any environment that binds registers to well-formed expressions of the
+    register's width — constants (concrete), some registers only (partial), arbitrary expressions (symbolic) -/
+theorem width_eval (fuel : Nat) (env : Env) (henv : EnvOK env) (e r : Expr) (he : WF e)
+    (h : eval cfg fuel env e = .ok r) : WF r ∧ r.size = e.size :=
+  eval_width cfg env henv fuel e he r h
+
+/-- slicing `x[a:b]` returns `b - a` bits -/
+theorem width_slice (fuel : Nat) (x r : Expr) (a b : Int) (hx : WF x) (h : getitem cfg fuel x a b = .ok r) :
+    WF r ∧ r.size = (b - a).toNat ∧ 0 ≤ a ∧ a < b ∧ b ≤ x.size := by
+  have h1 := (widthIH_all cfg fuel).getitem x a b hx r h
+  refine ⟨h1.1, h1.2, ?_⟩
+  cases fuel with
+  | zero => rw [getitem.eq_def] at h; cases h
+  | succ n =>
+    rw [getitem.eq_def] at h; dsimp only at h
+    cases hc : checkSlice x.size a b with
+    | error e => rw [hc] at h; cases h
+    | ok u => exact checkSlice_ok hc
+
+/-- `composer(parts)` has the sum of the widths of its parts -/
+theorem width_compose (fuel : Nat) (parts : List Expr) (r : Expr) (hp : ∀ x ∈ parts, WF x)
+    (h : composer cfg fuel parts = .ok r) : WF r ∧ r.size = (parts.map Expr.size).sum := by
+  have := (widthIH_all cfg fuel).composer parts hp r h
+  refine ⟨this.1, ?_⟩
+  rw [this.2]
+  clear this h hp
+  suffices ∀ k, parts.foldl (fun a x => a + x.size) k = k + (parts.map Expr.size).sum by simpa using this 0
+  induction parts with
+  | nil => intro k; simp
+  | cons x tl ih => intro k; simp only [List.foldl_cons, List.map_cons, List.sum_cons]; rw [ih]; omega
+
+/-- `zeroextend` / `signextend` return the target width (or the operand's, if that is larger) -/
+theorem width_extend (fuel : Nat) (sign : Bool) (x r : Expr) (size : Nat) (hx : WF x)
+    (h : extend cfg fuel sign x size = .ok r) : WF r ∧ r.size = max size x.size := by
+  unfold extend at h
+  split at h
+  · rename_i v s f
+    split at h <;> (cases h; exact ⟨WF_mkCst _ _ (Nat.lt_of_lt_of_le hx.1 (Nat.le_max_right _ _)), rfl⟩)
+  · exact (widthIH_all cfg fuel).extendExp sign x size hx r h
+
+/-- a conditional has the width of its branches -/
+theorem width_tst (t l r e : Expr) (ht : WF t) (hl : WF l) (hr : WF r) (ht1 : t.size = 1) (h : mkTst t l r = .ok e) :
+    WF e ∧ e.size = l.size ∧ l.size = r.size := by
+  unfold mkTst at h
+  split at h
+  · cases h
+  · rename_i hne
+    simp only [bne_iff_ne, ne_eq, Decidable.not_not] at hne
+    cases h
+    exact ⟨by simp only [WF]; exact ⟨WF_size_pos l hl, ht, hl, hr, ht1, trivial, hne.symm⟩, rfl, hne⟩
+
+/-! ### compositions tile their width -/
+
+/-- `CompWF` of everything well-formed: the parts of a composition tile `[0, size)` exactly — no gap, no
+    overlap, every part as wide as its key (so by the `width_*` theorems every comp returned by construction,
+    `simplify`, `eval`, slicing, `composer`, `extend` is tiled, and so is every comp nested inside). -/
+theorem compWF_of_WF (s : Nat) (f : Bool) (ps : List Part) (h : WF (.comp s f ps)) :
+    0 < s ∧ Tiles s ps ∧ ∀ p ∈ ps, WF p.2.2 := by
+  simp only [WF] at h
+  exact ⟨h.1, h.2.1, (WFParts_iff ps).mp h.2.2⟩
+
+/-- `c[a:b] = v` on a tiled comp (`comp.__setitem__` with `cut`, flattening a comp value): still tiled -/
+theorem compWF_setitem (fuel : Nat) (n : Nat) (sf : Bool) (ps : List Part) (a b : Int) (v r : Expr)
+    (hc : WF (.comp n sf ps)) (hv : WF v) (h : setitem cfg fuel (.comp n sf ps) a b v = .ok r) : WF r ∧ r.size = n := by
+  obtain ⟨hn, ht, hw⟩ := compWF_of_WF n sf ps hc
+  obtain ⟨ps', rfl, hd', hw', _, _, _, hc'⟩ := (widthIH_all cfg fuel).setitem n sf ps a b v r ht.disj hw hv h
+  refine ⟨?_, rfl⟩
+  simp only [WF]
+  refine ⟨hn, tiles_of_disj_cnt hd' ?_, (WFParts_iff _).mpr hw'⟩
+  intro x hx
+  rw [hc' x]
+  split
+  · rfl
+  · exact ht.2 x hx
+
+/-- `comp.restruct()` keeps a tiled part table tiled -/
+theorem compWF_restruct (n : Nat) (ps : List Part) (ht : Tiles n ps) (hw : ∀ p ∈ ps, WF p.2.2) :
+    Tiles n (restruct ps) ∧ ∀ p ∈ restruct ps, WF p.2.2 := by
+  obtain ⟨r1, r2, r3⟩ := restruct_spec n ps ht.disj hw
+  exact ⟨tiles_of_disj_cnt r1 (fun x hx => by rw [r3 x]; exact ht.2 x hx), r2⟩
+
+/-- soundness of the executable checker run on every comp dumped from the real code (K-tie) -/
+theorem compWF_sound (n : Nat) (ps : List Part) (h : compWF n ps = true) : 0 < n ∧ Tiles n ps :=
+  Expr.compWF_sound n ps h
+
+/-! ### non-vacuity: concrete trees meeting the hypotheses -/
+
+def cfg0 : Cfg := { cplx := fun _ => false, vecCplx := fun _ => false }
+
+/-- `(a & 0xff00)` on 32 bits: well-formed, and `simplify` returns the 32-bit composition of the mask rule -/
+example : WF (.op .and (.reg "a" 32 false) (.cst 0xff00 32 false) 32 false 2) := by
+  simp [WF, Op.type]
+
+example : (match simplify cfg0 20 {} (.op .and (.reg "a" 32 false) (.cst 0xff00 32 false) 32 false 2) with
+    | .ok r => r.size == 32 && r.isCmp
+    | .error _ => false) = true := by
+  decide +kernel
+
+example : compWF 32 [(8, 16, .slc (.reg "a" 32 false) 8 8 false none 1), (0, 8, .cst 0 8 false), (16, 32, .cst 0 16 false)] = true := by
+  decide
+
 end Amoco.C12
